@@ -67,10 +67,15 @@ func (e *Engine) inlineTarget(call *ast.CallExpr, callee *types.Func) *ast.FuncD
 		}
 	}
 	sig := callee.Type().(*types.Signature)
-	if sig.Variadic() || sig.TypeParams().Len() > 0 || sig.RecvTypeParams().Len() > 0 {
+	if sig.TypeParams().Len() > 0 || sig.RecvTypeParams().Len() > 0 {
 		return nil
 	}
-	if sig.Params().Len() != len(call.Args) {
+	if sig.Variadic() {
+		// the fixed parameters are bound; nothing is known about the variadic one
+		if len(call.Args) < sig.Params().Len()-1 {
+			return nil
+		}
+	} else if sig.Params().Len() != len(call.Args) {
 		return nil
 	}
 	if sig.Recv() != nil {
@@ -100,18 +105,11 @@ func (e *Engine) resultIdents(call *ast.CallExpr, callee *types.Func, decl *ast.
 	}
 	var ids []*ast.Ident
 	sig := callee.Type().(*types.Signature)
-	named := decl.Type.Results != nil && len(decl.Type.Results.List) > 0 && len(decl.Type.Results.List[0].Names) > 0
-	if named {
-		for _, f := range decl.Type.Results.List {
-			ids = append(ids, f.Names...)
-		}
-	} else {
-		for i := 0; i < sig.Results().Len(); i++ {
-			id := &ast.Ident{NamePos: call.Pos(), Name: fmt.Sprintf("ret%d$%s", i, callee.Name())}
-			v := types.NewVar(call.Pos(), callee.Pkg(), id.Name, sig.Results().At(i).Type())
-			e.P.synthDefs(id, v)
-			ids = append(ids, id)
-		}
+	for i := 0; i < sig.Results().Len(); i++ {
+		id := &ast.Ident{NamePos: call.Pos(), Name: fmt.Sprintf("ret%d$%s", i, callee.Name())}
+		v := types.NewVar(call.Pos(), callee.Pkg(), id.Name, sig.Results().At(i).Type())
+		e.P.synthDefs(id, v)
+		ids = append(ids, id)
 	}
 	e.inlined[call] = ids
 	return ids
@@ -137,6 +135,9 @@ func (e *Engine) inlineCall(call *ast.CallExpr, callee *types.Func, decl *ast.Fu
 			i++
 			continue
 		}
+		if _, variadic := f.Type.(*ast.Ellipsis); variadic {
+			break
+		}
 		for _, n := range f.Names {
 			if n.Name != "_" && i < len(call.Args) {
 				lhs = append(lhs, n)
@@ -159,11 +160,9 @@ func (e *Engine) inlineCall(call *ast.CallExpr, callee *types.Func, decl *ast.Fu
 			st = e.assignCore(st, lhs[j:j+1], rhs[j:j+1], token.DEFINE, synth, nil)
 		}
 		// named results start at their zero values
-		if len(fr.results) > 0 && e.Info.Defs[fr.results[0]] != nil && fr.results[0].NamePos != call.Pos() {
-			for _, r := range fr.results {
-				st = e.killTarget(st, r)
-				st = e.setZero(st, r)
-			}
+		for _, r := range namedResults(decl) {
+			st = e.killTarget(st, r)
+			st = e.setZero(st, r)
 		}
 		return st
 	})
@@ -191,6 +190,17 @@ func (e *Engine) inlineCall(call *ast.CallExpr, callee *types.Func, decl *ast.Fu
 // inlineReturn handles a return statement of a helper interpreted in place.
 func (e *Engine) inlineReturn(s *ast.ReturnStmt, in []*State) {
 	fr := e.frames[len(e.frames)-1]
+	if named := namedResults(fr.Decl); len(s.Results) == 0 && len(named) == len(fr.results) && len(named) > 0 {
+		// bare return: the named results are the values
+		lhs := make([]ast.Expr, len(fr.results))
+		rhs := make([]ast.Expr, len(named))
+		for i := range fr.results {
+			lhs[i], rhs[i] = fr.results[i], named[i]
+		}
+		in = e.hookEach(in, func(st *State) *State { return e.assignCore(st, lhs, rhs, token.ASSIGN, s, nil) })
+		fr.rets = append(fr.rets, in...)
+		return
+	}
 	if len(s.Results) == 0 || len(s.Results) != len(fr.results) {
 		for _, r := range s.Results {
 			in = e.expr(r, in)
@@ -334,4 +344,15 @@ func (e *Engine) ResolveDeep(x ast.Expr) ast.Expr {
 
 func (e *Engine) isResultIdent(id *ast.Ident) bool {
 	return strings.HasPrefix(id.Name, "ret") && strings.Contains(id.Name, "$")
+}
+
+func namedResults(decl *ast.FuncDecl) []*ast.Ident {
+	var ids []*ast.Ident
+	if decl.Type.Results == nil {
+		return nil
+	}
+	for _, f := range decl.Type.Results.List {
+		ids = append(ids, f.Names...)
+	}
+	return ids
 }
